@@ -1,4 +1,217 @@
+/-
+  C12 — no call panics, hangs or wedges the filesystem, whatever its arguments.
+  Property theorems ONLY (helper lemmas live in Rivia/Lemmas/Total.lean, Rivia/Lemmas/Fuel*.lean,
+  Rivia/Lemmas/NoPanic.lean, Rivia/Lemmas/MoveWf.lean).
+
+  In the models every place where the Rust code can panic is an explicit `.panic` / `none` branch and
+  every unbounded loop is fuelled with `.hang` on exhaustion, so "total" = those branches are
+  unreachable.
+
+  Total by type (no theorem needed): `Core.slice`, `Core.drop`, `Core.nthFront/nthBack`,
+  `Core.first`, `Core.hasSome`, `Core.consume`, `Core.size`, `Core.toBool`, `Core.trimSuffix`,
+  `Core.has`, `Core.takeWhileP`, and on the path side `components`, `push`, `render`, `mash`,
+  `trimPrefix/trimSuffix`, `trimFirst/trimLast`, `trimProtocol`, `relative`, `parsePaths`, `has*`,
+  `isEmpty`, `concat`: these are plain Lean functions into `List`/`Bool`/`Str`, they have no
+  `Outcome`/`Option`-as-panic result at all.
+-/
 import Rivia.Model.MemfsOps
+import Rivia.Model.Core
+import Rivia.Spec.MemfsJudge
+import Rivia.Lemmas.Total
+import Rivia.Lemmas.NoPanic
+import Rivia.Lemmas.FuelClone
+import Rivia.Lemmas.MoveWf
+
 namespace Rivia.Props
-theorem C12_placeholder : True := trivial
+open Rivia Rivia.Str Rivia.Memfs Rivia.Spec
+
+/-! ### A. path / core helpers -/
+
+/-- `expandSeg` is called with fuel `y.length + 1`; every larger fuel gives the same result, i.e.
+    the fuel-0 branch is never reached with input left -/
+theorem C12_expandSeg_fuel_suffices (env : Env) (y : Str) (f : Nat) (hf : y.length + 1 ≤ f) :
+    expandSeg env f y [] = expandSeg env (y.length + 1) y [] :=
+  Lemmas.expandSeg_fuel env f (y.length + 1) y [] (by omega) (by omega)
+
+/-- `absLoop` is called with fuel `(components c).length + 1`; every larger fuel gives the same
+    result -/
+theorem C12_absLoop_fuel_suffices (cwd c : Str) (f : Nat) (hf : (components c).length + 1 ≤ f) :
+    absLoop f cwd c = absLoop ((components c).length + 1) cwd c :=
+  Lemmas.absLoop_fuel f ((components c).length + 1) cwd c (by omega) (by omega)
+
+/-- the public path helpers are total on every string (and every environment / cwd) -/
+theorem C12_path_helpers_total (env : Env) (cwd p s : Str) :
+    cleanO s ≠ none ∧ trimPrefixO p s ≠ none ∧ trimSuffixO p s ≠ none ∧
+    trimExt s ≠ .panic ∧ trimExt s ≠ .hang ∧
+    name s ≠ .panic ∧ name s ≠ .hang ∧
+    base s ≠ .panic ∧ base s ≠ .hang ∧ dir s ≠ .panic ∧ dir s ≠ .hang ∧
+    expand env s ≠ .panic ∧ expand env s ≠ .hang ∧
+    absWith env cwd s ≠ .panic ∧ absWith env cwd s ≠ .hang :=
+  ⟨Lemmas.cleanO_ne_none s, Lemmas.trimPrefixO_ne_none p s, Lemmas.trimSuffixO_ne_none p s,
+   (Lemmas.trimExt_fine s).1, (Lemmas.trimExt_fine s).2,
+   (Lemmas.name_fine s).1, (Lemmas.name_fine s).2,
+   (Lemmas.base_fine s).1, (Lemmas.base_fine s).2, (Lemmas.dir_fine s).1, (Lemmas.dir_fine s).2,
+   (Lemmas.expand_fine env s).1, (Lemmas.expand_fine env s).2,
+   (Lemmas.absWith_fine env cwd s).1, (Lemmas.absWith_fine env cwd s).2⟩
+
+/-- `trim_ext` always returns `Ok` (its only failure mode in the code is the slicing panic) -/
+theorem C12_trim_ext_ok (s : Str) : ∃ t, trimExt s = .ok t := Lemmas.trimExt_ok s
+
+/-- the iterator extensions with a `Result`: never panic / hang -/
+theorem C12_iter_ext_total {α} (l : List α) :
+    Core.firstResult l ≠ .panic ∧ Core.firstResult l ≠ .hang ∧
+    Core.lastResult l ≠ .panic ∧ Core.lastResult l ≠ .hang ∧
+    Core.single l ≠ .panic ∧ Core.single l ≠ .hang := by
+  refine ⟨?_, ?_, ?_, ?_, ?_, ?_⟩
+  all_goals first
+    | (unfold Core.firstResult; split <;> simp)
+    | (unfold Core.lastResult; split <;> simp)
+    | (unfold Core.single; split <;> simp)
+
+/-! ### B. Memfs operations without a fuelled loop: total on ALL states -/
+
+/-- every operation except `mkfile_m`, `remove_all`, `move_p`, the listings, `entries`, `chmod*`,
+    `chown*`, `copy*` -/
+abbrev SimpleOp (op : Op) : Prop := Lemmas.SimpleOp op = true
+
+theorem C12_memfs_simple_ops_total (env : Env) (s : State) (op : Op) (h : SimpleOp op) :
+    (step env s op).1 ≠ .panic ∧ (step env s op).1 ≠ .hang :=
+  Lemmas.step_simple_fine env s op h
+
+/-- non-vacuity: the predicate covers e.g. `mkdir_p`, `symlink`, `write_all`, `remove` -/
+example : SimpleOp (.mkdirP "a/b".toList) ∧ SimpleOp (.symlink "l".toList "~/$x".toList) ∧
+    SimpleOp (.writeAll [] [1, 2]) ∧ SimpleOp (.remove "..".toList) ∧ ¬ SimpleOp (.removeAll []) := by
+  decide
+
+/-! ### D. the instance stays usable: every call of a history of simple operations returns -/
+
+/-- whatever happened before (errors included), the next simple call returns: along any history of
+    simple operations, from ANY state, no step panics or hangs -/
+theorem C12_history_total (env : Env) (s : State) (pre : List Op) (op : Op) (h : SimpleOp op) :
+    (step env (run env s pre) op).1 ≠ .panic ∧ (step env (run env s pre) op).1 ≠ .hang :=
+  Lemmas.step_simple_fine env (run env s pre) op h
+
+/-! ### no operation ever panics (ALL operations, ALL states, no invariant) -/
+
+/-- every `.panic` branch of the Memfs model is unreachable: whatever the state (well-formed or
+    not) and whatever the arguments, no call panics -/
+theorem C12_memfs_never_panics (env : Env) (s : State) (op : Op) : (step env s op).1 ≠ .panic :=
+  Lemmas.step_no_panic env s op
+
+/-! ### C. the fuelled loops terminate on well-formed states -/
+
+/-- `remove_all` (general): the worklist loop never exhausts its fuel `4 * (entries + 2)` -/
+theorem C12_remove_all_terminates (env : Env) (s : State) (p : Str) (h : Inv s) :
+    (step env s (.removeAll p)).1 ≠ .hang :=
+  Lemmas.step_removeAll_no_hang env p s h
+
+/-- the snapshot worklist (`_clone_entries`; fuel 0 = `.ok acc` in the model) is never cut short:
+    with the model's fuel `4 * (n+1)^2` or any larger one the result is the same -/
+theorem C12_snapshot_fuel_suffices (s : State) (h : Inv s) (abs : FsPath) (g : Nat)
+    (hg : 4 * (s.entries.length + 1) * (s.entries.length + 1) ≤ g) :
+    cloneLoop s.entries g [abs] [] = cloneEntries s abs :=
+  Lemmas.cloneEntries_fuel h abs g hg
+
+/-- traversal without following links (general: any depth window, filter, order, contents-first,
+    descriptor cap): `nextLoop` / `runIter` never exhaust `travFuel` -/
+theorem C12_entries_nofollow_terminates (env : Env) (s : State) (p : Str) (r : TravReq) (h : Inv s)
+    (hf : r.follow = false) : (step env s (.entries p r)).1 ≠ .hang :=
+  Lemmas.step_entries_no_hang env p r s h hf
+
+/-- the six listing helpers (they never follow links) -/
+theorem C12_listings_terminate (env : Env) (s : State) (p : Str) (h : Inv s) :
+    (step env s (.paths p)).1 ≠ .hang ∧ (step env s (.dirs p)).1 ≠ .hang ∧
+    (step env s (.files p)).1 ≠ .hang ∧ (step env s (.allPaths p)).1 ≠ .hang ∧
+    (step env s (.allDirs p)).1 ≠ .hang ∧ (step env s (.allFiles p)).1 ≠ .hang :=
+  Lemmas.step_listing_no_hang env p s h
+
+/-- all operations except `move_p`, `mkfile_m` and the traversals that follow links -/
+abbrev TermOp (op : Op) : Prop := Lemmas.TermOp op = true
+
+/-- on a well-formed state every such operation returns: `remove_all`, `entries` / `chmod_b` /
+    `chown_b` / `copy_b` without `follow`, `chmod`, `chown`, `copy`, the listings and all simple
+    operations neither panic nor hang -/
+theorem C12_wellformed_ops_total (env : Env) (s : State) (op : Op) (h : Inv s) (ht : TermOp op) :
+    (step env s op).1 ≠ .panic ∧ (step env s op).1 ≠ .hang :=
+  ⟨Lemmas.step_no_panic env s op, Lemmas.step_term_no_hang env s op h ht⟩
+
+/-- non-vacuity -/
+example : Inv Memfs.init ∧ TermOp (.removeAll "/".toList) ∧ TermOp (.chmod "a".toList 0o755) ∧
+    TermOp (.copyB [] [] { follow := false }) ∧ TermOp (.entries [] { max := some 3, contentsFirst := true }) ∧
+    ¬ TermOp (.entries [] { follow := true }) := by decide
+
+/-- `mkfile_m` (= `mkfile`, then a recursive `chmod` of the new file) returns provided the state
+    after its `mkfile` part is well-formed — which is invariant preservation, property C03 -/
+theorem C12_mkfile_m_terminates (env : Env) (s : State) (p : Str) (mode : Nat)
+    (h : Inv (mkfileM env p s).2) : (step env s (.mkfileM p mode)).1 ≠ .hang :=
+  Lemmas.step_mkfileM_no_hang env p mode s h
+
+/-! #### `move_p` -/
+
+/-- leaf case, on ANY state: if the source resolves to an entry without listed children (a file,
+    a link, an empty directory) or to nothing, `move_p` returns -/
+theorem C12_move_leaf_terminates (env : Env) (s : State) (a b : Str)
+    (h : Lemmas.MoveSourceIsLeaf env s a) : (step env s (.moveP a b)).1 ≠ .hang :=
+  Lemmas.step_moveP_leaf b h
+
+/-- general case under a decidable domain: on a well-formed state `move_p` returns provided every
+    destination key it computes (`dstOf`, through the string functions `trim_prefix` / `mash`)
+    for an entry at/under the source lies outside the source subtree.  This holds whenever names
+    are ordinary path components; `Inv` itself says nothing about the characters of names, which is
+    why it is a hypothesis. -/
+theorem C12_move_terminates_partial (env : Env) (s : State) (a b : Str) (h : Inv s)
+    (hd : Lemmas.MoveOutside env s a b) : (step env s (.moveP a b)).1 ≠ .hang :=
+  Lemmas.step_moveP_outside h hd
+
+/-- a small tree `/a/f` -/
+def C12_exampleState : State :=
+  { entries := [([], { mkDirEntry [] none with files := some [['a']] }),
+                ([['a']], { mkDirEntry [['a']] none with files := some [['f']] }),
+                ([['a'], ['f']], mkFileEntry [['a'], ['f']])],
+    files := [([['a'], ['f']], [])], cwd := [], root := [], handles := [] }
+
+/-- non-vacuity of the domain (on resolved keys, so that no path pipeline is evaluated): moving the
+    directory `/a` of the tree `/a/f` to `/b` -/
+example : Inv C12_exampleState ∧ Lemmas.MoveDstOutside C12_exampleState [['a']] [['b']] := by decide
+
+/-- general case on ordinary states: all names in the keys are ordinary path components (non-empty,
+    no `/`, not `.` / `..`), no real directory is also a regular file, and the resolved destination
+    consists of ordinary components too (it is the output of `abs`).  All three are decidable; none
+    is part of `Inv`, all hold on every state the driver reaches. -/
+theorem C12_move_terminates_wf (env : Env) (s : State) (a b : Str) (h : Inv s)
+    (hw : Lemmas.NamesWf s) (hk : Lemmas.KindExcl s) (hd : Lemmas.DstWf env s b) :
+    (step env s (.moveP a b)).1 ≠ .hang :=
+  Lemmas.step_moveP_wf a h hw hk hd
+
+/-- non-vacuity of the state hypotheses -/
+example : Inv C12_exampleState ∧ Lemmas.NamesWf C12_exampleState ∧ Lemmas.KindExcl C12_exampleState ∧
+    Lemmas.WfKey [['b']] := by decide
+
+/-- the string-level destination of `move_p` / `copy` is the list-level one on ordinary names -/
+theorem C12_dstOf_ordinary (d pre r : FsPath) (hd : Lemmas.WfKey d) (hp : Lemmas.WfKey pre)
+    (hr : Lemmas.WfKey r) : dstOf d (pre ++ r) pre = d ++ r :=
+  Lemmas.dstOf_wf hd hp hr
+
+-- OPEN (not proved):
+--   def C12_move_terminates_full : Prop :=
+--     ∀ env s a b, Inv s → (step env s (.moveP a b)).1 ≠ .hang
+--   Neither proved nor refuted: `Inv` does not constrain the characters of names nor exclude an entry
+--   that is a directory and a regular file at once, and on such states the destination keys computed
+--   through `trim_prefix` / `mash` need not stay outside the source subtree, which is what the
+--   potential argument uses.  Proved instead: the leaf case on every state, the general case under
+--   `MoveOutside` (C12_move_terminates_partial) and under `NamesWf ∧ KindExcl ∧ DstWf`
+--   (C12_move_terminates_wf).  `DstWf` itself follows from "abs returns a clean absolute path"
+--   (not proved here).
+--
+-- OPEN (not proved): termination of the traversals that follow links (`entries` with `follow`,
+--   `chmod_b` / `chown_b` / `copy_b` with `follow`): the potential used here (3 · size of the subtree
+--   of every pending item) is not decreasing when an item is replaced by the target of a link.
+--   Expected to be FALSE in the model for fuel reasons only: with `follow` a directory reachable
+--   through k levels of two links each is visited 2^k times (the loop check only looks at the
+--   iterators that are currently open), which exceeds `travFuel = 64 (n+2)^2` for k ≈ 20, n ≈ 60;
+--   the Rust code would terminate (after exponentially many steps).  Confirmed with `#eval` (not a
+--   kernel proof: 262144 iterations are out of reach of `decide`): on the state built by `mkdir_p /d0 .. /d20`
+--   and `symlink /di/a -> /d(i+1)`, `symlink /di/b -> /d(i+1)` (62 entries, `Inv` holds),
+--   `entries "/d0"` with `follow` yields `.hang` in the model, without `follow` it yields 3 paths.
+
 end Rivia.Props
